@@ -149,6 +149,16 @@ func spellings(thorough bool) []gen.Spelling {
 			}
 		}
 	}
+	// blanks inside the rule object: runs of spaces (and a tab) around colons, commas and braces, with
+	// bare and with quoted rule names
+	for _, gap := range []string{" ", "  ", "   ", "\t", " \t"} {
+		for _, q := range []bool{false, true} {
+			for ml := 0; ml < 3; ml++ {
+				out = append(out, gen.Spelling{EOL: []string{"\n", "\r\n", "\r"}[i%3], Indent: []string{"  ", "\t", ""}[i%3], Comments: i % 2, MultiLine: ml, QuoteNames: q, TrailComma: i%4 >= 2, RuleGap: gap})
+				i++
+			}
+		}
+	}
 	return out
 }
 
